@@ -7,6 +7,7 @@ from .. import cfg as C
 from .. import norm as N
 from . import common as K
 from . import master_model as M
+from . import sched_model as SM
 
 EXPLANATION = """
 C09.1 REGION (start-up reconciliation, evaluated over Venn regions of the
@@ -44,7 +45,7 @@ MIN_OBLIGATIONS = 20
 MIN_PER_RULE = {'C09.1': 3, 'C09.2': 6, 'C09.3': 4, 'C09.4': 4, 'C09.5': 4}
 
 
-def _startup(ctx, master):
+def _startup(ctx, master, rule='C09.1'):
     func = master.methods.get('init_schedule')
     ctx.require(func is not None, 'Master.init_schedule')
     graph, ops = M.record_ops(ctx, func)
@@ -74,7 +75,7 @@ def _startup(ctx, master):
         tabs = sx.tables(loop.ast.iter, loop)
         ok = tabs is not None and all(
             t and all(want_del[r] == v for r, v in t.items()) for t in tabs)
-        ctx.ob('C09.1', func, loop, ok,
+        ctx.ob(rule, func, loop, ok,
                'start-up deletes exactly stored - model: %s' % (
                    [K.show_table(t) for t in tabs] if tabs else
                    'not a recognised set expression'),
@@ -96,7 +97,7 @@ def _startup(ctx, master):
                         ok = False      # changed placements are rewritten
                     if 'model' not in region and val:
                         ok = False      # nothing outside the model
-        ctx.ob('C09.1', func, loop, ok,
+        ctx.ob(rule, func, loop, ok,
                'start-up creates model - stored and re-writes placements '
                'changed by the start-up cycle, nothing outside the model: '
                '%s' % ([K.show_table(t) for t in tabs] if tabs else
@@ -106,7 +107,7 @@ def _startup(ctx, master):
     # result
     for sub in K.walk_no_nested(func.node):
         if is_changed(sub):
-            _change_filter(ctx, func, sub, 'C09.1')
+            _change_filter(ctx, func, sub, rule)
     # server loop of the delete pass covers the stored root listing
     for node, rec in dels:
         inner = K.enclosing_for(graph, node, rec[1])
@@ -134,7 +135,7 @@ def _startup(ctx, master):
         ok = tabs is not None and 'root' in (sy.used_all or set()) and \
             all(all(val for region, val in t.items() if 'root' in region)
                 for t in tabs)
-        ctx.ob('C09.1', func, outer, ok,
+        ctx.ob(rule, func, outer, ok,
                'the reconciliation visits every server that has stored '
                'records (domain includes the listing of the placement '
                'root): %s' % ([K.show_table(t) for t in tabs] if tabs else
@@ -382,7 +383,13 @@ def _unsnapshotted(ctx, master):
                                'accounts for' % (N.txt(tgt.value),
                                                  tgt.attr))
     ctx.require(count >= 8, 'writers of placement_expiry/identity')
-    # callers of the writers outside Cell: only Loader.restore_placement
+    writer_callers(ctx, master)
+
+
+def writer_callers(ctx, master, rule='C09.4'):
+    """Callers of the placement writers outside Cell: only
+    Loader.restore_placement, which keeps record and model together."""
+    index = ctx.index
     loader = index.get_class(K.LOADER, 'Loader')
     for cls in (loader, master):
         for func in cls.live_methods():
@@ -406,29 +413,85 @@ def _unsnapshotted(ctx, master):
                     continue
                 site = site[0]
                 if func.qualname != 'Loader.restore_placement':
-                    ctx.fail('C09.4', func, site,
+                    ctx.fail(rule, func, site,
                              'a published attribute of an instance is '
                              'changed outside a scheduling cycle and '
                              'outside restore_placement; no publication '
                              'sees the change')
                     continue
-                _check_restore_site(ctx, func, graph, site, sub)
+                _check_restore_site(ctx, func, graph, site, sub, rule)
 
 
-def _check_restore_site(ctx, func, graph, site, call):
+def _reload(ctx):
+    """Replacing a server un-places its instances outside a cycle (the next
+    publication sees before == None and leaves their records): the
+    placement must be restored from the records, decided on what the
+    server held BEFORE it was removed."""
+    loader = ctx.index.get_class(K.LOADER, 'Loader')
+    func = loader.methods.get('reload_server')
+    ctx.require(func is not None, 'Loader.reload_server')
+    graph = ctx.cfg(func)
+    nz = N.Normaliser()
+    removes = [n for n, _c in K.nodes_calling(
+        graph, lambda c: K.is_meth(c, 'remove_server'))]
+    loads = [n for n, _c in K.nodes_calling(
+        graph, lambda c: K.is_meth(c, 'load_server'))]
+    pairs = [(r, l) for r in removes for l in loads
+             if K.find_path(r, [l], follow_exc=False) is not None]
+    ctx.require(pairs, 'remove_server followed by load_server in '
+                       'reload_server')
+    defs = M.local_defs(func)
+
+    def restores(node):
+        return any(K.is_meth(c, 'restore_placement')
+                   for c in C.node_calls(node))
+    for rnode, lnode in pairs:
+        def snapshot_says_empty(edge, rnode=rnode):
+            # falsy outcome of a local computed from <server>.apps before
+            # the removal
+            for atom in nz.facts_of_edge(edge):
+                if atom.raw is not None:
+                    continue
+                key = atom.key
+                name = None
+                if key[0] == 'truth' and not key[2]:
+                    name = key[1]
+                if key[0] == 'cmp' and len(key[2]) == 1:
+                    name = key[2][0][0]
+                if not (name and name.isidentifier() and
+                        len(defs.get(name, [])) == 1 and
+                        '.apps' in N.txt(defs[name][0])):
+                    continue
+                dnodes = [n for n in graph.nodes if n.kind == 'stmt' and
+                          isinstance(n.ast, ast.Assign) and
+                          n.ast.value is defs[name][0]]
+                if dnodes and K.guarded_by(
+                        graph, rnode, lambda e, d=dnodes[0]: e.src is d):
+                    return True
+            return False
+        path = K.find_path(lnode, [graph.exit], cut_node=restores,
+                           cut_edge=snapshot_says_empty, follow_exc=False)
+        ctx.ob('C09.4', func, lnode, path is None,
+               'a replaced server gets its recorded placement restored '
+               'unless it held no instance before it was removed',
+               path=K.describe(path) if path else None,
+               construct='reload: restore after replace')
+
+
+def _check_restore_site(ctx, func, graph, site, call, rule='C09.4'):
     defs = M.local_defs(func)
     meth = call.func.attr
     if meth == 'restore':
         val = call.args[1] if len(call.args) > 1 else None
         src = N.txt(defs.get(N.txt(val), [val])[0]) if val is not None \
             else ''
-        ctx.ob('C09.4', func, site, "data.get('expires'" in src,
+        ctx.ob(rule, func, site, "data.get('expires'" in src,
                'verbatim restore: the expiry comes from the stored record '
                '(%s)' % src)
     elif meth == 'force_set_identity':
         val = call.args[0]
         src = N.txt(defs.get(N.txt(val), [val])[0])
-        ctx.ob('C09.4', func, site, "data.get('identity'" in src,
+        ctx.ob(rule, func, site, "data.get('identity'" in src,
                'forced identity comes from the stored record (%s)' % src)
     elif meth == 'put':
         # lease re-evaluated: the record must be rewritten or deleted on
@@ -444,7 +507,7 @@ def _check_restore_site(ctx, func, graph, site, call):
             return False
         path = K.find_path_cp(graph, site, [loop, graph.exit],
                               cut_node=republished, follow_exc=False)
-        ctx.ob('C09.4', func, site, path is None,
+        ctx.ob(rule, func, site, path is None,
                'a placement restored with a re-evaluated lease rewrites '
                '(or deletes) its record before the next publication',
                path=K.describe(path) if path else None)
@@ -553,7 +616,9 @@ def check(ctx):
     _startup(ctx, master)
     _payload(ctx, master)
     _reschedule(ctx, master)
+    SM.snapshot_brackets(ctx, 'C09.3')
     _unsnapshotted(ctx, master)
+    _reload(ctx)
     _removal(ctx, master)
 
 
